@@ -147,13 +147,15 @@ func jsonMain(args []string) {
 		st.Cases++
 		st.Ops++
 		if i%25 == 24 { // eventlogger.Filter
-			pr := []string{"keep", "drop", "err"}[p.intn(3)]
+			pr := []string{"keep", "drop", "err", "errkeep"}[p.intn(4)]
 			f := &eventlogger.Filter{Predicate: func(e *eventlogger.Event) (bool, error) {
 				switch pr {
 				case "keep":
 					return true, nil
 				case "drop":
 					return false, nil
+				case "errkeep": // an error is an error, whatever the boolean next to it says
+					return true, errors.New("predicate failed")
 				}
 				return false, errors.New("predicate failed")
 			}}
@@ -165,7 +167,7 @@ func jsonMain(args []string) {
 			} else if err == nil && got == nil {
 				res = "dropped"
 			}
-			if (pr == "keep") != (res == "forward") || (pr == "err") != (err != nil) {
+			if (pr == "keep") != (res == "forward") || (pr == "err" || pr == "errkeep") != (err != nil) {
 				oracle("C14 Filter predicate %s gave %s", pr, res)
 			}
 			o.emit("filter "+pr, res)
@@ -192,7 +194,7 @@ func jsonMain(args []string) {
 		var got *eventlogger.Event
 		var err error
 		if useFilter {
-			pred = []string{"absent", "keep", "drop", "err"}[p.intn(4)]
+			pred = []string{"absent", "keep", "drop", "err", "errkeep"}[p.intn(5)]
 			ff := &eventlogger.JSONFormatterFilter{}
 			switch pred {
 			case "keep":
@@ -201,6 +203,8 @@ func jsonMain(args []string) {
 				ff.Predicate = func(interface{}) (bool, error) { return false, nil }
 			case "err":
 				ff.Predicate = func(interface{}) (bool, error) { return false, errors.New("predicate failed") }
+			case "errkeep":
+				ff.Predicate = func(interface{}) (bool, error) { return true, errors.New("predicate failed") }
 			}
 			got, err = ff.Process(ctx, e)
 		} else {
@@ -230,6 +234,10 @@ func jsonMain(args []string) {
 		}
 		if unsupported && err == nil {
 			oracle("C14 unencodable payload accepted")
+		}
+		// an error from the predicate is an error, whatever the boolean next to it says
+		if (pred == "err" || pred == "errkeep") && err == nil {
+			oracle("C14 the predicate returned an error (%s) but JSONFormatterFilter.Process reported none (%.20s)", pred, res)
 		}
 		if err == nil && stale != nil && string(stored) == string(stale) {
 			oracle("C14 the json entry present before Process survived: the stored line is not the line of this event (last writer wins)")
